@@ -8,7 +8,7 @@ use crate::driver::{AnyFlow, ReqCfg};
 use crate::engine::{guarded, Report, Tier, Violation};
 use crate::refmodel::{head, redirect};
 
-pub const RULE: &str = "full product: method (9) x status 300..=399 x policy {Never, SameHost} x response body {Content-Length: 0, Content-Length: 3 + body, chunked body, no framing header} x Location {/next, absent, one that resolves to the request's own URI, one on another host} x request mode {plain; loaded (cookie, referer, origin, user-agent and the caller's own Transfer-Encoding: chunked; body-less methods with send-body-despite-method); send-body-despite-method (body-less methods); Expect: 100-continue refused by the 3xx itself, and late 100 delivered in the same buffer as the 3xx (body methods)} = 96000 cells, each driven through the real flow from Prepare to the state after the response (through RecvBody where there is one), then as_new_flow and the head of the new request. distinct = distinct (method, status class, body kind, outcome) cells";
+pub const RULE: &str = "full product: method (9) x status 300..=399 x policy {Never, SameHost} x response body {Content-Length: 0, Content-Length: 3 + body, chunked body, no framing header} x Location {/next, absent, one that resolves to the request's own URI, one on another host} x request mode {plain; HTTP/1.0 request (GET, HEAD, POST); loaded (cookie, referer, origin, user-agent and the caller's own Transfer-Encoding: chunked; body-less methods with send-body-despite-method); send-body-despite-method (body-less methods); Expect: 100-continue refused by the 3xx itself, and late 100 delivered in the same buffer as the 3xx (body methods)} = 105600 cells, each evaluated with the library's logging off and again with it at level Trace (debug!/trace! arguments evaluated and formatted), each driven through the real flow from Prepare to the state after the response (through RecvBody where there is one), then as_new_flow and the head of the new request. distinct = distinct (method, status class, body kind, outcome) cells";
 
 const METHODS: [&str; 9] = ["GET", "HEAD", "POST", "PUT", "DELETE", "CONNECT", "OPTIONS", "TRACE", "PATCH"];
 const BODIES: [&str; 16] = ["cl0", "cl3", "chunked", "none", "cl0-noloc", "cl3-noloc", "chunked-noloc", "none-noloc", "cl0-self", "cl3-self", "chunked-self", "none-self", "cl0-xhost", "cl3-xhost", "chunked-xhost", "none-xhost"];
@@ -32,7 +32,7 @@ fn check_cell(method: &str, status: u16, same_host: bool, body: &str) -> (Option
     };
     let cell = format!("{} {} policy={} body={} location={:?} mode={}", method, status, if same_host { "SameHost" } else { "Never" }, body, loc_line.trim_end(), mode);
     let r = guarded(|| -> Result<String, (String, String)> {
-        let mut cfg = ReqCfg::new(method, "1.1", "http://a.test/p").orig("authorization", "S3CRET");
+        let mut cfg = ReqCfg::new(method, if mode == "http10" { "1.0" } else { "1.1" }, "http://a.test/p").orig("authorization", "S3CRET");
         if mode == "loaded" {
             // the headers a real caller sends along, and the caller's own Transfer-Encoding
             for (k, v) in [("cookie", "k=ORIG"), ("referer", "http://a.test/from"), ("origin", "http://a.test"), ("user-agent", "ua/1"), ("transfer-encoding", "chunked")] {
@@ -225,6 +225,9 @@ pub fn run(_tier: Tier) -> Report {
                 for b in BODIES {
                     jobs.push((m, s, p, b.to_string()));
                     jobs.push((m, s, p, format!("loaded+{}", b)));
+                    if matches!(m, "GET" | "HEAD" | "POST") {
+                        jobs.push((m, s, p, format!("http10+{}", b)));
+                    }
                     let body_method = crate::refmodel::reqvalid::needs_body(m);
                     if !body_method {
                         jobs.push((m, s, p, format!("despite+{}", b)));
@@ -236,6 +239,20 @@ pub fn run(_tier: Tier) -> Report {
             }
         }
     }
+    let mut rep = sweep(&jobs, false);
+    // the same table once more with the library's logging switched on (debug! / trace! arguments
+    // are evaluated and formatted only then)
+    crate::engine::logging(true);
+    let before = crate::engine::LOG_LINES.load(std::sync::atomic::Ordering::Relaxed);
+    let with_log = sweep(&jobs, true);
+    crate::engine::logging(false);
+    rep.guard("log records were produced in the logging pass", crate::engine::LOG_LINES.load(std::sync::atomic::Ordering::Relaxed) > before);
+    rep.merge(with_log);
+    rep.extra("cells", json!(jobs.len() * 2));
+    rep
+}
+
+fn sweep(jobs: &[(&'static str, u16, bool, String)], logging_on: bool) -> Report {
     let parts: Vec<Report> = jobs
         .par_chunks(100)
         .enumerate()
@@ -255,8 +272,8 @@ pub fn run(_tier: Tier) -> Report {
                     rep.sample(json!({"method": m, "status": s, "policy_same_host": p, "body": b, "outcome": class}));
                 }
                 if let Some((key, what)) = fail {
-                    rep.violation(Violation { key, ord, what, replay: json!({"method": m, "status": s, "same_host": p, "body": b}) });
-                } else if ord % 97 == 0 {
+                    rep.violation(Violation { key, ord, what: if logging_on { format!("{} [library logging at level Trace]", what) } else { what }, replay: json!({"method": m, "status": s, "same_host": p, "body": b, "logging": logging_on}) });
+                } else if ord % 97 == 0 && !logging_on {
                     crate::engine::validate_case(&mut rep, replay, json!({"method": m, "status": s, "same_host": p, "body": b}));
                 }
             }
@@ -267,11 +284,13 @@ pub fn run(_tier: Tier) -> Report {
     for p in parts {
         rep.merge(p);
     }
-    rep.extra("cells", json!(jobs.len()));
     rep
 }
 
 pub fn replay(v: &Value) -> Result<Option<String>, String> {
+    if v["logging"].as_bool() == Some(true) {
+        crate::engine::logging(true);
+    }
     let (f, _) = check_cell(v["method"].as_str().ok_or("method")?, v["status"].as_u64().ok_or("status")? as u16, v["same_host"].as_bool().ok_or("same_host")?, v["body"].as_str().ok_or("body")?);
     Ok(f.map(|(k, w)| format!("[{}] {}", k, w)))
 }
